@@ -20,9 +20,19 @@ ASSUMPTIONS = ["as C07 (exact rationals; tolerance 2^-20 for mean / wmean / std)
 def histories(rng, tier):
     n = 250 if tier == 'quick' else 1500
     out = []
-    for _ in range(n):
+    for hi in range(n):
+        forced_fm = hi < 14       # a fixed share of every run: record maps with float32 fields, full mantissas
         kind = rng.choice(['flt', 'flt', 'int', 'int', 'rec', 'wide'])
-        c = gen.rand_cfg(rng, kinds=[kind], max_npix=768, name='m', min_delta=1)
+        if forced_fm:
+            kind = 'rec'
+        c = gen.rand_cfg(rng, kinds=[kind], max_npix=768, name='m', min_delta=1, rec_bool=not forced_fm)
+        if forced_fm:
+            np_ = [j for j in range(len(c.fields)) if j != c.primary]
+            if not np_:
+                c.fields = list(c.fields) + ['f4']
+            else:
+                c.fields = list(c.fields)
+                c.fields[rng.choice(np_)] = 'f4'
         c.covpix = []
         ordout = rng.randint(c.covord, c.spord - 1)
         if c.kind == 'wide':
@@ -31,12 +41,33 @@ def histories(rng, tier):
             red = rng.choice(['and', 'or'])
         else:
             red = rng.choice(c07.FLOAT_REDS + ['wmean', 'wmean'])
+        if forced_fm:
+            red = rng.choice(['mean', 'sum', 'std', 'mean'])
         if red != 'and' and rng.random() < 0.3:
             # allocated coverage pixels that may stay completely unobserved (sum -> 0, prod -> 1 there)
             c.covpix = rng.sample(range(c.ncov), rng.randint(1, min(2, c.ncov)))
         h = [c.line()]
         pix = c07.fill_groups(rng, c, h, ordout, full_only=(red == 'and'))
         covered = sorted(set(p // c.nfine for p in pix) | set(c.covpix))
+        if (forced_fm or rng.random() < 0.25) and (c.kind == 'rec' and 'f4' in c.fields or c.kind == 'plain' and c.dtype == 'f4') \
+                and red in ('mean', 'sum', 'std', 'prod', 'wmean'):
+            # float32 values with FULL 24-bit mantissas: their sums / products are not exact, the exact model
+            # declines (`inexact`), and what remains is the comparison of the two routes of the implementation —
+            # which must accumulate in the same precision (seeded change C19f)
+            def fm():
+                return '%d^%d' % (rng.randrange(2 ** 23 + 1, 2 ** 24, 2) * rng.choice([1, -1]), rng.randint(18, 26))
+            for i, ln in enumerate(h):
+                if ln.startswith('upd m ') and ' vals=' in ln:
+                    head, vals = ln.rsplit(' vals=', 1)
+                    new = []
+                    for v in vals.split(','):
+                        if v.startswith('r'):
+                            fs = v[1:].split(';')
+                            fs = [fm() if c.fields[j] == 'f4' and j != c.primary else x for j, x in enumerate(fs)]
+                            new.append('r' + ';'.join(fs))
+                        else:
+                            new.append(fm())
+                    h[i] = head + ' vals=' + ','.join(new)
         wtxt = wtxt2 = ''
         if red == 'wmean':
             wdt = 'f4' if (c.kind == 'plain' and c.dtype == 'f4') else rng.choice(['f4', 'f8'])
